@@ -658,6 +658,17 @@ def runTempIndexRangeG (fx : Fx) (r : KRange) (index : Int) : Res (Option Int) :
       (add s index).bind fun v =>
         (rangeContainsG fx r v).bind fun c => .ok (if c then some v else none)
 
+/-- `run_slice` on a bounded range (arm added by commit 0ead920: `(first, rest...)` against `1..5`
+binds the sub-range): `size = (end - start) as usize`, `index = signed_index_to_unsigned(index,
+size).min(size) as i64`, then `start + index`. With fix-5: wrapping forms. -/
+def runSliceRangeG (fx : Fx) (r : KRange) (index : Int) (sliceTo : Bool) : Res (Int × Int) :=
+  (asBoundedRangeG fx r).bind fun (s, e) =>
+    (if fx.range then .ok (e - s) else ckI64 (e - s)).bind fun size =>
+      (signedIndexToUnsigned index size).bind fun i0 =>
+        let i := castI64 (min i0 size)
+        (if fx.range then .ok (wrap64 (s + i)) else ckI64 (s + i)).bind fun x =>
+          .ok (if sliceTo then (s, x) else (x, e))
+
 def runRemainderAssignG (fx : Fx) (a b : Int) : Res (Option Int) :=
   if fx.rem ∧ b = 0 then .ok none else (wrappingRem a b).map' some
 
